@@ -7,4 +7,5 @@ let () =
   | "graph" -> Graphmodel.run_graph ic
   | "runcache" -> Runcachemodel.run_runcache ic
   | "find" -> Findmodel.run_find ic
+  | "glob" -> Globmodel.run_glob ic
   | m -> prerr_endline ("unknown mode " ^ m); exit 2
